@@ -38,6 +38,7 @@ func c13Generators(c *Ctx) []*FuncInfo {
 		sig := fn.Obj.Type().(*types.Signature)
 		if sig.Results().Len() == 1 && typeIs(sig.Results().At(0).Type(), modPath+"/plugin/driver/nic", "Conf") {
 			out = append(out, fn)
+			c.P.Anchor(fn) // found by shape: stays a function in the normalised view
 		}
 	}
 	return out
